@@ -4,5 +4,5 @@ P=$1; F=$2; E=$3
 if [ -n "$(git -C /repo status --porcelain)" ]; then echo "refusing: /repo has uncommitted changes"; exit 4; fi
 cd /repo && sed -i "$E" "$F" && git diff --stat | head -3
 if git diff --quiet; then echo "MUTANT DID NOT APPLY"; exit 3; fi
-cd /verif && ./bin/govc check -prop $P -no-evidence 2>&1 | grep -E "^FAILED|^govc:|KNOWN|^VIOLATION" | cut -c1-220
+cd /verif && ./bin/govc check -prop $P -no-evidence 2>&1 | grep -E "^FAILED|^govc:|KNOWN|^VIOLATION" | cut -c1-220 | tail -6
 cd /repo && git checkout -- "$F"
